@@ -18,8 +18,8 @@ package cookies
 //@ prop C18 C09
 //@ requires[config:samesite-validated] opts.SameSite == "" || opts.SameSite == "lax" || opts.SameSite == "strict" || opts.SameSite == "none"
 //@ ensures[attributes] result != nil && result.Name == name && result.Value == value && result.Path == opts.Path
-//@     && result.HttpOnly == opts.HTTPOnly && result.Secure == opts.Secure && result.SameSite == ret(ParseSameSite)
-//@     && arg(ParseSameSite, 0) == opts.SameSite
+//@     && result.HttpOnly == opts.HTTPOnly && result.Secure == opts.Secure
+//@ ensures[same-site-from-the-option] result.SameSite == ret(ParseSameSite) && arg(ParseSameSite, 0) == opts.SameSite
 //@ ensures[domain-rule] result.Domain == ite(ret(GetCookieDomain) != "", ret(GetCookieDomain),
 //@     ite(len(opts.Domains) > 0, opts.Domains[len(opts.Domains) - 1], ""))
 //@     && arg(GetCookieDomain, 0) == req && arg(GetCookieDomain, 1) == opts.Domains
